@@ -4,9 +4,32 @@ package revocation
 
 // Export-only accessors for the verification harness in /verif (build tag "verif").
 
-import "github.com/privacybydesign/gabi/big"
+import (
+	"github.com/privacybydesign/gabi/big"
+	"github.com/privacybydesign/gabi/gabikeys"
+)
 
 // VerifDerivedParameters returns the derived revocation parameters b, 2^(k'+k”), B*2^(k'+k”+1).
 func VerifDerivedParameters() (*big.Int, *big.Int, *big.Int) {
 	return Parameters.b, Parameters.twoZk, Parameters.bTwoZk
+}
+
+// VerifEventHash exposes Event.hash and Event.hashBytes.
+func (event *Event) VerifHash() Hash { return event.hash() }
+
+func (event *Event) VerifHashBytes() []byte { return event.hashBytes() }
+
+func (event *Event) VerifHashEquals(h Hash) error { return event.hashEquals(h) }
+
+// VerifProductCache returns the cached product of an Update (nil if not computed yet).
+func (update *Update) VerifProductCache() *big.Int { return update.product }
+
+// VerifFlags returns the memoised verification state of an EventList.
+func (el *EventList) VerifFlags() (verified bool, hasErr bool, product *big.Int) {
+	return el.verified, el.validationErr != nil, el.product
+}
+
+// VerifNewWitness exposes newWitness (witness for a chosen value e).
+func VerifNewWitness(sk *gabikeys.PrivateKey, acc *Accumulator, e *big.Int) (*Witness, error) {
+	return newWitness(sk, acc, e)
 }
